@@ -153,7 +153,9 @@ CLAIMS = {
     "C02": dict(
         technique="Lean 4 theorems on interface-level normal forms (what emit->parse does to a description) + differential run conv = norm on every in-domain description; round-trip predicate on the real code",
         text=(
-            "Kernel-checked: Kinds.pres_class (one conversion keeps every parameter's prose, type and explicit default and only "
+            "Kernel-checked: ToDocstring.entryBlockP_plain / toDocstring_text (the docstring emit.class_ builds - one block per "
+            "entry, every helper on the way leaves a default-free one-line entry alone - in closed form, at every "
+            "indentation level) and FuncDoc.cleandoc_uniform (what ast.get_docstring hands to parse.class_). " "Kernel-checked: Kinds.pres_class (one conversion keeps every parameter's prose, type and explicit default and only "
             "fills absent defaults), norm_pres (names and order kept; return entry kept or lost, never invented), norm_cls_idem, "
             "for ALL descriptions (no size bound). These theorems speak about Kinds.norm, an interface-level model of "
             "emit.class_ followed by parse.class_. Behind it, the attribute half is modelled statement by statement "
@@ -175,7 +177,14 @@ CLAIMS = {
     "C03": dict(
         technique="Lean 4 theorems on interface-level normal forms (what emit->parse does to a description) + differential run conv = norm on every in-domain description; round-trip predicate on the real code",
         text=(
-            "Kernel-checked: Kinds.pres_func (one conversion keeps every parameter's prose, type and explicit default and only "
+            "Kernel-checked, the docstring half of the kind at statement level: FuncDoc.C03_docstring_half_partial - what "
+            "parse.docstring reads from the docstring emit.function wrote (to_docstring with every helper it calls, then "
+            "inspect.cleandoc as ast.get_docstring applies it, then the ReST parser) is the description it was written from, "
+            "at EVERY indentation level, for any number of uniquely named, typed, described, default-free entries and texts "
+            "of any length (types in the docstring, separating indentation on; no defaults, no return entry). Its parts: "
+            "ToDocstring.toDocstring_text (the closed form of the emitted text, types in the docstring or not, separating "
+            "indentation on or off), FuncDoc.cleandoc_uniform (cleandoc removes a uniform margin, whatever the lines), "
+            "FuncDocParse.parse_text0 (the parser on text without the line breaks emit.docstring puts around it). " "Kernel-checked: Kinds.pres_func (one conversion keeps every parameter's prose, type and explicit default and only "
             "fills absent defaults), norm_pres (names and order kept; return entry kept or lost, never invented), norm_func_idem, "
             "for ALL descriptions (no size bound). These theorems speak about Kinds.norm, an interface-level model of "
             "emit.function followed by parse.function. Behind it: FuncAttr.funcRT_eq_norm (one parameter through set_value, "
